@@ -19,7 +19,7 @@ META = {
     ),
     "assumptions": ["40% of the machines use typed / falsy state values (C10's value generator), the rest the default ids"],
     "must_observe": ["initial_activations", "restarts", "resumes", "events_executed"],
-    "shard_timeout": {"quick": 300, "thorough": 3400},
+    "shard_timeout": {"quick": 900, "thorough": 3400},
 }
 
 PROFILE = {"n_states": (2, 5), "n_events": (1, 3), "extra_transitions": (1, 5), "p_guard": 0.15,
